@@ -185,3 +185,6 @@ class LastMux(KT):
 
 
 ALL = [MapMux(), FilterMux(), ScanMux(), FirstMux(), TakeMux(), LastMux()]
+
+for _c in ALL:
+    globals()['U_' + _c.name] = _c
